@@ -77,6 +77,15 @@
 //!
 //! For full usage examples, see the `integration_test` crate.
 
+#![cfg_attr(
+    qbice_verif,
+    allow(
+        missing_docs,
+        missing_debug_implementations,
+        missing_copy_implementations
+    )
+)]
+
 extern crate self as qbice;
 
 pub mod config;
@@ -84,6 +93,8 @@ pub mod engine;
 pub mod executor;
 pub mod program;
 pub mod query;
+#[cfg(qbice_verif)]
+pub mod verif;
 
 pub use config::Config;
 #[cfg(feature = "default-config")]
